@@ -97,7 +97,7 @@ PENDING = {}
 # what round 2 added to the checks (appended to the claim text)
 EXTRA = {
  'C02': ' The buffer-manager level (BufMgr.tla) lays the classes out with no slack behind the last slot.',
- 'C05': ' The retry path of Stream.Flush (queue full at the first attempt, consumer drains and goes idle between two attempts) is staged on a real session pair with the same stranded-element oracle. Round 3: staged backlog scenarios (300 / 5000 elements consumed by ONE polling round on a queue of 8192, then one more element) - magnitudes the TLC constants (capacities 2-5) do not reach.',
+ 'C05': ' The retry path of Stream.Flush (queue full at the first attempt, consumer drains and goes idle between two attempts) is staged on a real session pair with the same stranded-element oracle. Round 3: staged backlog scenarios (300 / 5000 / 8100 elements consumed by ONE polling round on a queue of 8192, then one more element) - magnitudes the TLC constants (capacities 2-5) do not reach.',
  'C07': ' Every second configuration uses 9-byte messages (a chain of three buffers); the payload of every recycled buffer and the connection read buffer are scribbled by the harness (aliasing / use-after-recycle show deterministically); the Blocking module\'s read waiter with a gate in front of readMore\'s select decides "told the stream ended with flushed bytes delivered and unread" when the peer\'s last data and its close are both ready.',
  'C09': ' Additional passes: staged Flush-retry scenarios, the BytePipe histories, and the Callback module (TLC behaviours + statement-granular random interleavings of Close against delivery) with the ledger and the integrity of every free list checked after both ends closed. Round 3: staged fault scenario \'corrupt queue element behind a good message\' (exact ledger, free-list integrity, foreign buffers untouched) and the backlog scenarios.',
  'C11': ' Round 2 added the callback-mode read waiter (the reader is the callback goroutine blocked inside OnData) and the property "a completed close by either end releases the reader".',
